@@ -1,4 +1,4 @@
 SPECIFICATION Spec
-INVARIANTS Mon_Explainable
+INVARIANTS Mon_Explainable Mon_Completes
 POSTCONDITION TraceAccepted
 CHECK_DEADLOCK FALSE
